@@ -172,7 +172,7 @@ class Ctx:
         self.end()
         if P.get('crash') and r[0] == 'crashed':
             raise Outcome(self.crash_clauses())
-        if P.get('busy') and not P.get('retry') and self.busy_attempts[0] > 0 and self.P['busy'] != 'later':
+        if P.get('busy') and not P.get('retry') and self.busy_attempts[0] > 0 and self.P['busy'] not in ('later', 'always'):
             # the lock was busy on the first attempt and retry was not requested: the call must not have succeeded
             self.add('C14', 'a call that met a busy lock without retry raises Timeout', False)
         return r
@@ -181,7 +181,17 @@ class Ctx:
     def arm_busy(self):
         w = self.w
         self.busy_attempts = [0]
-        if self.P['busy'] == 'always':
+        if self.P['busy'] == 'later':
+            # the lock is free for the first j BEGIN attempts and busy from then on (another client took it mid-call)
+            jj = self.s.v_int('busy_after', 1, self.P.get('busy_max', 3))
+
+            def hook(con):
+                self.busy_attempts[0] += 1
+                b = bool(jj < self.busy_attempts[0])
+                if b:
+                    flag('lock_busy')
+                return b
+        elif self.P['busy'] == 'always':
             hook = lambda con: (self.busy_attempts.__setitem__(0, self.busy_attempts[0] + 1) or True)
         else:
             kmax = self.P.get('busy_max', 2)
@@ -195,6 +205,21 @@ class Ctx:
 
     def timeout_clauses(self, e):
         flag('timeout_raised')
+        if self.P['busy'] == 'later':
+            # a bulk removal interrupted half-way: what it removed stays removed, the count is reported
+            T0, T1 = self.T0, self.T1
+            conj = []
+            for it in T0.items:
+                if it.present is False:
+                    continue
+                p = T1.lookup(it.c['key'], it.c['raw'])
+                conj.append(Implies(it.present, Or(Not(p.present), same_cols(p, it, CACHE_COLS))))
+            removed = sx.SubI(T0.count(), T1.count())
+            return [('C14', 'Timeout only when retry was not requested', not self.P.get('retry')),
+                    ('C14', 'an interrupted bulk removal reports exactly the number of items it had already removed',
+                     And(len(e.args) == 1, EqR(zv(e.args[0]), removed) if len(e.args) == 1 and is_num_like(e.args[0]) else False)),
+                    ('C14,C08', 'what was not removed is untouched', AndL(conj)),
+                    ('C14,C08', 'counters and files are consistent after the interrupted bulk removal', And(state.inv_table(T1), self.s.fs_inv(T1)))]
         cl = [('C14', 'Timeout only when retry was not requested', not self.P.get('retry')),
               ('C14,C08', 'a timed-out call has no effect on the items', And(unchanged(self.T0, self.T1), spec.same_count(self.T0, self.T1))),
               ('C14,C08', 'a timed-out call leaves no value file behind and the counters intact',
@@ -367,7 +392,7 @@ def ob_set_file(w, P):
     x.add('C03,C08', 'at most one new value file', len([1 for rel, ex, size, comp in newfiles if ex is not False]) <= 1)
     for rel, ex, size, comp in newfiles:
         fid = w.intern_text(rel)
-        x.add('C01,C03', 'new file holds the payload', Implies(ex, And(w.file_content(c, rel) == payload, EqI(size, len(payload)) if not isz(size) else size == len(payload))))
+        x.add('C01,C03,FAULT', 'new file holds the payload', Implies(ex, And(w.file_content(c, rel) == payload, EqI(size, len(payload)) if not isz(size) else size == len(payload))))
         x.add('C03,C08', 'new row names the new file', Implies(And(ex, new.present), And(EqI(new.c['filename'].cls, TEXT), EqR(new.c['filename'].num, fid))))
     x.add('C03', 'set returns True', ret is True)
     x.inv()
@@ -955,6 +980,9 @@ def jobs(tier):
                         weight=2, must_reach=['timeout_raised']))
         out.append(dict(id=func[3:] + '.busy.retry', func=func, params=dict(N=NB, busy=1, retry=True, page=1), tags=['C14'], functions=FUNCS[func],
                         weight=5, must_reach=['lock_busy'], all_clauses=True))
+    for func, extra in (('ob_clear', {}), ('ob_evict', {}), ('ob_expire', {}), ('ob_cull', {'policy': 'least-recently-stored', 'batch': 1}), ('ob_cull', {'policy': 'least-frequently-used', 'batch': 1})):
+        out.append(dict(id=func[3:] + '.busy.later.' + SHORT.get(extra.get('policy'), ''), func=func, params=dict(N=2, busy='later', bulk=True, page=1, **extra), tags=['C14', 'C08'],
+                        functions=FUNCS[func], weight=8, must_reach=['timeout_raised']))
     for pol in ('least-recently-stored', 'none'):
         out.append(dict(id='cull.busy.noretry.' + SHORT[pol], func='ob_cull', params=dict(N=NB, busy=1, bulk=True, policy=pol), tags=['C14', 'C08'], functions=FUNCS['ob_cull'],
                         weight=2, must_reach=['timeout_raised']))
@@ -968,8 +996,8 @@ def jobs(tier):
     for func, extra in (('ob_get', {}), ('ob_getitem', {'via': 'getitem'}), ('ob_contains', {}), ('ob_len', {}), ('ob_iter', {'how': 'iter'}), ('ob_iter', {'how': 'iterkeys'})):
         out.append(dict(id=func[3:] + '.lockfree.' + '.'.join(extra.values()), func=func, params=dict(N=NB, busy='always', **extra), tags=['C14'], functions=FUNCS[func], weight=1, all_clauses=True))
     for func in ('ob_set', 'ob_set_file', 'ob_add_file', 'ob_incr', 'ob_pop', 'ob_delete', 'ob_touch', 'ob_clear', 'ob_expire'):
-        out.append(dict(id=func[3:] + '.fault', func=func, params=dict(N=NB, fault=True, page=1), tags=['C08', 'C01', 'C03'], functions=FUNCS[func] + ['core.Cache._transact'],
-                        weight=30, must_reach=['fault_escaped']))
+        out.append(dict(id=func[3:] + '.fault', func=func, params=dict(N=NB, fault=True, page=1), tags=['C08', 'C01'], functions=FUNCS[func] + ['core.Cache._transact'],
+                        weight=30, must_reach=['fault_escaped'], only_tags=['C08', 'FAULT']))
     for func in ('ob_set', 'ob_set_file', 'ob_add_file', 'ob_incr', 'ob_pop', 'ob_delete', 'ob_touch', 'ob_clear', 'ob_expire', 'ob_evict', 'ob_cull'):
         out.append(dict(id=func[3:] + '.kill', func=func, params=dict(N=NB, crash=True, page=1), tags=['C07'], functions=FUNCS[func] + ['core.Cache._transact'],
                         weight=60, must_reach=['crashed']))
